@@ -4,6 +4,7 @@ import (
 	"fmt"
 	"go/ast"
 	"go/constant"
+	"go/token"
 	"go/types"
 	"sort"
 	"strings"
@@ -122,7 +123,15 @@ func (e *Enum) setIsIota() {
 // fetchConstComment retrieve the comment, not exposed in go/types
 func fetchConstComment(pa *packages.Package, obj *types.Const) string {
 	node := nodeAt(pa, obj.Pos())
-	spec := node.(*ast.ValueSpec)
+	spec, ok := node.(*ast.ValueSpec)
+	if !ok {
+		// obj is not the first name of its spec (const A, B T = ...):
+		// nodeAt returns the identifier, look for the enclosing spec
+		spec = valueSpecAt(pa, obj.Pos())
+		if spec == nil {
+			return ""
+		}
+	}
 	if spec.Comment == nil {
 		return ""
 	}
@@ -169,5 +178,22 @@ func fetchPkgEnums(pa *packages.Package) enumsMap {
 		e.setIsIota()
 	}
 
+	return out
+}
+
+// valueSpecAt returns the const/var spec containing [pos], or nil
+func valueSpecAt(pa *packages.Package, pos token.Pos) (out *ast.ValueSpec) {
+	for _, file := range pa.Syntax {
+		if !(file.Pos() <= pos && pos < file.End()) {
+			continue
+		}
+		ast.Inspect(file, func(n ast.Node) bool {
+			if spec, ok := n.(*ast.ValueSpec); ok && spec.Pos() <= pos && pos < spec.End() {
+				out = spec
+				return false
+			}
+			return true
+		})
+	}
 	return out
 }
